@@ -131,3 +131,251 @@ pub fn plane_is_three_cell_point(d: u8, p: (i64, i64)) -> bool {
   let n = 1i64 << d;
   (p.1 == n || p.1 == -n) && (p.0 & (2 * n - 1)) == 0
 }
+
+// ------------------------------------------------------------------------------------------------------------
+// BMOC oracle: three-valued set semantics over deepest-level cells (DESIGN.md 3.4)
+// ------------------------------------------------------------------------------------------------------------
+
+pub const ABSENT: u8 = 0;
+pub const PARTIAL: u8 = 1;
+pub const FULL: u8 = 2;
+
+/// Documented raw layout of a BMOC entry: hash bits, sentinel bit 1, 2*(depth_max-depth) zero bits, flag bit.
+pub fn spec_raw(depth_max: u8, depth: u8, hash: u64, full: bool) -> u64 {
+  (((hash << 1) | 1) << (1 + 2 * (depth_max - depth) as u32)) | (full as u64)
+}
+
+/// Decode a raw entry from its documented layout: the sentinel is the lowest set bit above the flag and must sit at an
+/// even offset 2*(depth_max-depth). Returns None when the value is not a valid encoding (no sentinel, odd offset,
+/// depth or hash out of range).
+pub fn spec_raw_decode(depth_max: u8, raw: u64) -> Option<(u8, u64, bool)> {
+  let full = (raw & 1) == 1;
+  let v = raw >> 1;
+  if v == 0 { return None; }
+  let tz = v.trailing_zeros();
+  if (tz & 1) != 0 || (tz >> 1) > depth_max as u32 { return None; }
+  let depth = depth_max - (tz >> 1) as u8;
+  let hash = v >> (tz + 1);
+  if hash < spec_n_hash(depth) { Some((depth, hash, full)) } else { None }
+}
+
+/// State of the deepest-level cell `c` (a cell of depth `probe_depth` >= depth_max of the entries)
+/// in a list of raw entries.
+pub fn spec_state_raw(depth_max: u8, entries: &[u64], probe_depth: u8, c: u64) -> u8 {
+  let mut k = 0usize;
+  let mut st = ABSENT;
+  while k < entries.len() {
+    if let Some((d, h, f)) = spec_raw_decode(depth_max, entries[k]) {
+      if (c >> (2 * (probe_depth - d) as u32)) == h { st = if f { FULL } else { PARTIAL }; }
+    }
+    k += 1;
+  }
+  st
+}
+
+/// An operand described by its tuples (what the harness itself pushed). At most 4 entries.
+#[derive(Clone, Copy)]
+pub struct Ops {
+  pub dm: u8,
+  pub n: usize,
+  pub d: [u8; 4],
+  pub h: [u64; 4],
+  pub f: [bool; 4],
+}
+
+impl Ops {
+  /// valid = depths <= dm, hashes in range, strictly increasing in z-order and pairwise disjoint
+  pub fn valid(&self) -> bool {
+    if self.dm > 29 || self.n > 4 { return false; }
+    let mut k = 0usize;
+    while k < self.n {
+      if self.d[k] > self.dm || self.h[k] >= spec_n_hash(self.d[k]) { return false; }
+      if k > 0 {
+        let end_prev = (self.h[k - 1] + 1) << (2 * (self.dm - self.d[k - 1]) as u32);
+        let start = self.h[k] << (2 * (self.dm - self.d[k]) as u32);
+        if end_prev > start { return false; }
+      }
+      k += 1;
+    }
+    true
+  }
+  pub fn all_full(&self) -> bool {
+    let mut k = 0usize;
+    while k < self.n { if !self.f[k] { return false; } k += 1; }
+    true
+  }
+  /// no four full sibling cells (canonical packed form)
+  pub fn packed(&self) -> bool {
+    let mut k = 0usize;
+    while k + 3 < self.n {
+      if self.f[k] && self.f[k + 1] && self.f[k + 2] && self.f[k + 3] && self.d[k] >= 1
+        && self.d[k + 1] == self.d[k] && self.d[k + 2] == self.d[k] && self.d[k + 3] == self.d[k]
+        && (self.h[k] & 3) == 0 && self.h[k + 1] == self.h[k] + 1 && self.h[k + 2] == self.h[k] + 2 && self.h[k + 3] == self.h[k] + 3 {
+        return false;
+      }
+      k += 1;
+    }
+    true
+  }
+  pub fn state(&self, probe_depth: u8, c: u64) -> u8 {
+    let mut k = 0usize;
+    let mut st = ABSENT;
+    while k < self.n {
+      if (c >> (2 * (probe_depth - self.d[k]) as u32)) == self.h[k] { st = if self.f[k] { FULL } else { PARTIAL }; }
+      k += 1;
+    }
+    st
+  }
+}
+
+/// Well-formedness of a list of raw entries (C09): valid encodings, depth <= depth_max, hash in range,
+/// strictly increasing z-order, pairwise disjoint. Returns the index of the first offending entry.
+pub fn spec_wf(depth_max: u8, entries: &[u64]) -> Option<usize> {
+  let mut k = 0usize;
+  let mut prev_end = 0u64;
+  while k < entries.len() {
+    match spec_raw_decode(depth_max, entries[k]) {
+      None => return Some(k),
+      Some((d, h, _)) => {
+        let sh = 2 * (depth_max - d) as u32;
+        let start = h << sh;
+        if k > 0 && start < prev_end { return Some(k); }
+        if k > 0 && !(entries[k - 1] < entries[k]) { return Some(k); }
+        prev_end = (h + 1) << sh;
+      }
+    }
+    k += 1;
+  }
+  None
+}
+
+/// Packedness of raw entries: index of the first of four full sibling entries, if any.
+pub fn spec_not_packed(depth_max: u8, entries: &[u64]) -> Option<usize> {
+  let mut k = 0usize;
+  while k + 3 < entries.len() {
+    if let (Some((d0, h0, f0)), Some((d1, h1, f1)), Some((d2, h2, f2)), Some((d3, h3, f3))) =
+      (spec_raw_decode(depth_max, entries[k]), spec_raw_decode(depth_max, entries[k + 1]),
+       spec_raw_decode(depth_max, entries[k + 2]), spec_raw_decode(depth_max, entries[k + 3])) {
+      if f0 && f1 && f2 && f3 && d0 >= 1 && d1 == d0 && d2 == d0 && d3 == d0
+        && (h0 & 3) == 0 && h1 == h0 + 1 && h2 == h0 + 2 && h3 == h0 + 3 { return Some(k); }
+    }
+    k += 1;
+  }
+  None
+}
+
+pub fn spec_op(op: u8, sa: u8, sb: u8) -> u8 {
+  match op {
+    0 => 2 - sa,                                         // not
+    1 => if sa < sb { sa } else { sb },                  // and = min
+    2 => if sa > sb { sa } else { sb },                  // or = max
+    _ => if sa == ABSENT { sb } else if sb == ABSENT { sa } else if sa == FULL && sb == FULL { ABSENT } else { PARTIAL },   // xor
+  }
+}
+
+/// One pass over raw entries: (first ill-formed index, state of probe cell c, first index of four full siblings).
+pub fn spec_scan(depth_max: u8, entries: &[u64], c: u64) -> (Option<usize>, u8, Option<usize>) {
+  let mut bad: Option<usize> = None;
+  let mut unpacked: Option<usize> = None;
+  let mut st = ABSENT;
+  let mut prev_end = 0u64;
+  let mut run = 0u32;           // length of the current run of full siblings 0,1,2,.. of one parent
+  let mut k = 0usize;
+  while k < entries.len() {
+    match spec_raw_decode(depth_max, entries[k]) {
+      None => { if bad.is_none() { bad = Some(k); } run = 0; }
+      Some((d, h, f)) => {
+        let sh = 2 * (depth_max - d) as u32;
+        let start = h << sh;
+        if k > 0 && (start < prev_end || !(entries[k - 1] < entries[k])) && bad.is_none() { bad = Some(k); }
+        // run of full siblings: entry k continues the run iff it is the sibling number `run` right after sibling run-1
+        let continues = run > 0 && f && d >= 1 && (h & 3) == run as u64 && start == prev_end;
+        if continues { run += 1; } else if f && d >= 1 && (h & 3) == 0 { run = 1; } else { run = 0; }
+        if run == 4 && unpacked.is_none() { unpacked = Some(k - 3); }
+        prev_end = (h + 1) << sh;
+        if (c >> sh) == h { st = if f { FULL } else { PARTIAL }; }
+      }
+    }
+    k += 1;
+  }
+  (bad, st, unpacked)
+}
+
+// ------------------------------------------------------------------------------------------------------------
+// Reference HEALPix projection (Calabretta & Roukema 2007, eq. 1-6 in the scaling of the crate: facets of half
+// diagonal 1) and point-in-cell test. Used natively (real libm) to confirm counter-examples; never by the solver.
+// ------------------------------------------------------------------------------------------------------------
+
+pub const REF_PI: f64 = std::f64::consts::PI;
+
+/// (X, Y) with X in [0, 8), Y in [-2, 2].
+pub fn ref_proj(lon: f64, lat: f64) -> (f64, f64) {
+  let two_pi = 2.0 * REF_PI;
+  let mut l = lon % two_pi;
+  if l < 0.0 { l += two_pi; }
+  if l >= two_pi { l = 0.0; }
+  let xg = l * (4.0 / REF_PI);
+  let z = lat.sin();
+  if z.abs() <= 2.0 / 3.0 {
+    (xg, 1.5 * z)
+  } else {
+    // sqrt(3 (1 - |z|)) = sqrt(6) sin(pi/4 - |lat|/2), without cancellation near the pole
+    let t = 6.0_f64.sqrt() * (0.25 * REF_PI - 0.5 * lat.abs()).sin();
+    let mut q = (xg / 2.0).floor();
+    if q > 3.0 { q = 3.0; }
+    let xc = 2.0 * q + 1.0;
+    let x = xc + (xg - xc) * t;
+    (x, if lat < 0.0 { t - 2.0 } else { 2.0 - t })
+  }
+}
+
+fn ref_wrap8(d: f64) -> f64 {
+  let mut d = d % 8.0;
+  if d > 4.0 { d -= 8.0; }
+  if d < -4.0 { d += 8.0; }
+  d
+}
+
+/// L1 excess (<= 0 means inside or on the border) of the plane point (x, y) with respect to the closed diamond of centre
+/// (cx, cy) and half diagonal r, minimised over the images of the cell under the identifications of the sphere: x modulo 8
+/// and, inside a polar cap, the four facets glued by quarter turns about the pole. No libm call.
+pub fn ref_excess_center(cx: f64, cy: f64, r: f64, x: f64, y: f64) -> f64 {
+  let mut dx = x - cx;
+  if dx > 4.0 { dx -= 8.0; }
+  if dx > 4.0 { dx -= 8.0; }
+  if dx < -4.0 { dx += 8.0; }
+  if dx < -4.0 { dx += 8.0; }
+  let adx = if dx < 0.0 { -dx } else { dx };
+  let dy = y - cy;
+  let ady = if dy < 0.0 { -dy } else { dy };
+  let mut best = adx + ady - r;
+  let ay = if y < 0.0 { -y } else { y };
+  let acy = if cy < 0.0 { -cy } else { cy };
+  // polar caps: same hemisphere, the cell reaches into the cap
+  if ay > 1.0 && cy * y > 0.0 && acy + r > 1.0 {
+    let tp = 2.0 - ay;
+    let xm = if x < 0.0 { x + 8.0 } else if x >= 8.0 { x - 8.0 } else { x };
+    let cm = if cx < 0.0 { cx + 8.0 } else if cx >= 8.0 { cx - 8.0 } else { cx };
+    let mut qp = (xm / 2.0) as i64; if qp > 3 { qp = 3; }
+    let up = xm - (2 * qp + 1) as f64;
+    let tc = 2.0 - acy;
+    let mut qc = (cm / 2.0) as i64; if qc > 3 { qc = 3; }
+    let uc = cm - (2 * qc + 1) as f64;
+    // image of the cell centre in the frame of the point's facet: a quarter turn about the pole per facet step
+    let k = (qc - qp) & 3;
+    let (ui, ti) = match k { 0 => (uc, tc), 1 => (tc, -uc), 2 => (-uc, -tc), _ => (-tc, uc) };
+    let du = up - ui;
+    let dt = tp - ti;
+    let e = (if du < 0.0 { -du } else { du }) + (if dt < 0.0 { -dt } else { dt }) - r;
+    if e < best { best = e; }
+  }
+  best
+}
+
+/// Same for a NESTED cell (centre from the integer plane oracle).
+pub fn ref_excess(depth: u8, hash: u64, x: f64, y: f64) -> f64 {
+  let n = (1u64 << depth) as f64;
+  let (b, i, j) = spec_decode(depth, hash);
+  let (cxi, cyi) = plane_center(depth, b, i, j);
+  ref_excess_center(cxi as f64 / n, cyi as f64 / n, 1.0 / n, x, y)
+}
